@@ -267,17 +267,17 @@ Section LookupListSizes.
     destruct (read_subs sr (pos + off) (rd16 b) offs) as [subs| | |] eqn:Es; try discriminate.
     apply read_subs_length in Es.
     destruct subs as [|[t eo|p t f] rs].
-    - intros H. assert (l = mkLookup (rd16 b) (rd16 (skipn 2 b)) n0 []) by congruence.
-      assert (count' = count + 1 + n) by congruence. subst. cbn in *. lia.
+    - intros H. assert (Hl : l_subs l = []) by (injection H as <- _; reflexivity).
+      assert (Hc' : count' = count + 1 + n) by congruence. rewrite Hl. cbn [length] in *. lia.
     - destruct (t =? rd16 b); [discriminate|].
       destruct (resolve_ext sr (pos + off) t offs (SExt t eo :: rs)) as [subs'| | |] eqn:Er;
         try discriminate.
       apply resolve_ext_length in Er.
-      intros H. assert (l = mkLookup t (rd16 (skipn 2 b)) n0 subs') by congruence.
-      assert (count' = count + 1 + n) by congruence. subst. cbn in *. lia.
+      intros H. assert (Hl : l_subs l = subs') by (injection H as <- _; reflexivity).
+      assert (Hc' : count' = count + 1 + n) by congruence. rewrite Hl. cbn [length] in *. lia.
     - intros H.
-      assert (l = mkLookup (rd16 b) (rd16 (skipn 2 b)) n0 (SLeaf p t f :: rs)) by congruence.
-      assert (count' = count + 1 + n) by congruence. subst. cbn [l_subs] in *. lia.
+      assert (Hl : l_subs l = SLeaf p t f :: rs) by (injection H as <- _; reflexivity).
+      assert (Hc' : count' = count + 1 + n) by congruence. rewrite Hl. cbn [length] in *. lia.
   Qed.
 
   Definition lookups_size (ls : list lookup) : N :=
@@ -462,3 +462,16 @@ Proof.
     + split; [discriminate|].
       intros [[H _]|(H1 & H2 & _)]; lia.
 Qed.
+
+(* ---------- distinct subtable-reader calls ---------- *)
+
+Lemma dedup_length l : forall seen, (length (dedup l seen) <= length l + length seen)%nat.
+Proof.
+  induction l as [|x r IH]; intros seen; cbn [dedup length]; [lia|].
+  destruct (existsb (pair_eqb x) seen).
+  - specialize (IH seen). lia.
+  - specialize (IH (x :: seen)). cbn [length] in IH. lia.
+Qed.
+
+Lemma distinct_calls_le ls : (N.to_nat (distinct_calls ls) <= length (all_calls ls))%nat.
+Proof. unfold distinct_calls. pose proof (dedup_length (all_calls ls) []). cbn [length] in *. lia. Qed.
